@@ -4,6 +4,7 @@ import (
 	"encoding/json"
 	"errors"
 	"fmt"
+	"reflect"
 	"strconv"
 	"strings"
 
@@ -223,8 +224,33 @@ func (c Cfg) Val(n uint64) interface{} {
 		return LV(longText(n))
 	case "esc":
 		return EV(escText(n))
+	case "agg":
+		return aggVal(n)
 	}
 	panic("bad val kind")
+}
+
+// AV is an aggregate value: omitempty slice / map / string fields of which exactly one is set
+// (by n%3), and a number.  A decoder that reuses one target for several values, or keeps what a
+// previous value left in a field, returns a different value.
+type AV struct {
+	A []int          `json:"a,omitempty"`
+	M map[string]int `json:"m,omitempty"`
+	S string         `json:"s,omitempty"`
+	N uint64         `json:"n"`
+}
+
+func aggVal(n uint64) AV {
+	v := AV{N: n}
+	switch n % 3 {
+	case 0:
+		v.A = []int{int(n), int(n + 1)}
+	case 1:
+		v.M = map[string]int{"k" + strconv.FormatUint(n, 10): int(n)}
+	default:
+		v.S = "s" + strconv.FormatUint(n, 10)
+	}
+	return v
 }
 
 // LV is a long string value: "<digits>-" followed by filler; its marshaled length (with the two
@@ -301,6 +327,11 @@ func (c Cfg) ValNat(v interface{}) uint64 {
 			panic(fmt.Sprintf("esc value corrupted: %q", string(x)))
 		}
 		return n
+	case AV:
+		if !reflect.DeepEqual(x, aggVal(x.N)) {
+			panic(fmt.Sprintf("aggregate value corrupted: %+v", x))
+		}
+		return x.N
 	case IV:
 		n, err := strconv.ParseUint(x.X.([]interface{})[0].(string), 10, 64)
 		if err != nil {
@@ -327,6 +358,8 @@ func (c Cfg) ValuesLike() interface{} {
 		return LV("")
 	case "esc":
 		return EV("")
+	case "agg":
+		return AV{}
 	}
 	panic("bad val kind")
 }
